@@ -38,6 +38,8 @@ Fault(k, p, g, at) == [kind |-> k, pkg |-> p, gen |-> g, at |-> at]
 AllFaults == ({Fault(k, p, g, at) : k \in {"err", "badsyntax", "die", "panic"}, p \in FixPkgs, g \in {"a", "b"}, at \in {"T1", "T2", "defer"}}
               \ {Fault("badsyntax", p, g, "defer") : p \in FixPkgs, g \in {"a", "b"}})
              \cup {Fault("err", p, g, "nested") : p \in FixPkgs, g \in {"a", "b"}}
+             (* ... and by the deferred callback of a generator that rendered nothing for the package *)
+             \cup {Fault("err", p, g, "qdefer") : p \in FixPkgs, g \in {"a", "b"}}
 
 Perms3 == { <<"p", "q", "r">>, <<"p", "r", "q">>, <<"q", "p", "r">>, <<"q", "r", "p">>, <<"r", "p", "q">>, <<"r", "q", "p">> }
 (* C05: every non-empty selection of packages in every order *)
@@ -50,7 +52,9 @@ BehSets ==
     CASE Menu = "C07" -> { <<>>,
                            << <<"p", "a", "nothing">>, <<"p", "b", "ignore">>, <<"q", "a", "skip">>, <<"q", "b", "ignore_render">>, <<"r", "a", "mixed">> >>,
                            << <<"p", "a", "ignore">>, <<"p", "b", "skip">>, <<"p", "c", "nothing">>, <<"q", "a", "ignore_render">>, <<"r", "b", "ignore">> >>,
-                           << <<"p", "a", "mixed">>, <<"p", "b", "nothing">>, <<"q", "b", "ignore">>, <<"q", "c", "skip">>, <<"r", "a", "nothing">>, <<"r", "b", "nothing">>, <<"r", "c", "nothing">> >> }
+                           << <<"p", "a", "mixed">>, <<"p", "b", "nothing">>, <<"q", "b", "ignore">>, <<"q", "c", "skip">>, <<"r", "a", "nothing">>, <<"r", "b", "nothing">>, <<"r", "c", "nothing">> >>,
+                           (* white space only; something rendered by the deferred callback alone *)
+                           << <<"p", "a", "blank">>, <<"p", "b", "defer_only">>, <<"q", "b", "blank">>, <<"r", "b", "defer_only">>, <<"r", "c", "blank">> >> }
       [] Menu = "C02" -> IF Lite THEN { << <<"p", "b", "ignore">>, <<"q", "a", "nothing">> >> }
                          ELSE { <<>>, << <<"p", "b", "ignore">>, <<"q", "a", "nothing">> >> }
       [] Menu = "C05" -> { <<>>, << <<"p", "a", "skip">>, <<"p", "b", "nothing">>, <<"q", "c", "skip">> >> }     \* packages that feed state into an instance without rendering
@@ -70,7 +74,8 @@ TailMenu ==
                            Run(TRUE, FALSE, PQR, G3, Fault("err", "q", "a", "T1")), Run(TRUE, FALSE, <<"q", "p">>, G3, NoFault),
                            From("q", RunAll), From("r", Run(TRUE, FALSE, <<"r">>, G3, NoFault)),
                            Edit("p"), Edit("q"), AddUser("q", "user.go"), DelUser("q", "user.go"), DelOut("p", "a"), AddUser("p", "notes.txt"),
-                           DelSum, Corrupt("drop"), Corrupt("wrong"), Corrupt("garbage"), Corrupt("truncate") }
+                           DelSum, Corrupt("drop"), Corrupt("wrong"), Corrupt("garbage"), Corrupt("truncate"),
+                           Corrupt("shuffle"), Corrupt("noise") }                  \* damage that keeps every entry readable
       [] Menu = "C02" -> { Run(TRUE, FALSE, PQR, G3, f) : f \in AllFaults } \cup
                          { Run(FALSE, FALSE, <<"r", "q">>, <<"b", "a">>, f) : f \in AllFaults } \cup
                          (IF Lite THEN {} ELSE { Run(TRUE, TRUE, <<"r">>, G3, f) : f \in {x \in AllFaults : x.pkg # "q"} })
